@@ -749,8 +749,9 @@ func (e *Engine) owner(fn *ssa.Function) bool {
 	if e.cfg.Owners[core.RelPkg(p)+"."+name] {
 		return true
 	}
-	// a type of the package that wraps the cursor (type scanner struct{ *parse.Input }): its methods are scanners too
-	if rt := fn.Signature.Recv().Type(); rt != nil {
+	// a type of the package that wraps the cursor (type scanner struct{ *parse.Input }): its methods are scanners too;
+	// not at parser level, where the lexer (which also holds the cursor) is a black box by construction
+	if rt := fn.Signature.Recv().Type(); rt != nil && !e.opaqueOK {
 		if pt, isPtr := rt.Underlying().(*types.Pointer); isPtr {
 			rt = pt.Elem()
 		}
@@ -1245,7 +1246,7 @@ func (e *Engine) atKind(fn *ssa.Function) int {
 	default:
 		return kind
 	}
-	if sl, isSl := sig.Params().At(sig.Params().Len()-1).Type().Underlying().(*types.Slice); !isSl || !isByteType(sl.Elem()) {
+	if sl, isSl := sig.Params().At(sig.Params().Len() - 1).Type().Underlying().(*types.Slice); !isSl || !isByteType(sl.Elem()) {
 		return kind
 	}
 	// all cursor operations are Peek(i) with i the range index; no stores; returns only constants
